@@ -793,3 +793,73 @@ func prevScopeWorld() (*world, error) {
 	}
 	return w, nil
 }
+
+// ---------------------------------------------------------------- scripted scenario: known finding C01-stale-service-targets-on-endpoint-only-change
+//
+// A ServiceEntry with inline endpoints stops (then starts again) listing the address of a connected sidecar while
+// other endpoints remain: the registry emits only an Endpoints-kind (incremental EDS) update, computeProxyState
+// recomputes proxy.ServiceTargets only for ServiceEntry-kind keys of the proxy's namespace, so the proxy keeps its
+// old inbound clusters / virtualInbound chains through every later push.
+var staleTargetsWorldOps = []scriptOp{
+	{"create", okey{kind.ServiceEntry, nsA, "s0"}, "hosts: [\"s0.ns1.example\"]\naddresses: [\"240.1.0.1\"]\nlocation: MESH_INTERNAL\nresolution: STATIC\nports:\n- number: 80\n  name: http\n  protocol: HTTP\nendpoints:\n- address: 10.1.0.1\n  labels:\n    app: s0\n- address: 10.1.0.2\n  labels:\n    app: s0\n"},
+	{"create", okey{kind.ServiceEntry, nsB, "s1"}, "hosts: [\"s1.ns2.example\"]\naddresses: [\"240.2.1.1\"]\nlocation: MESH_INTERNAL\nresolution: STATIC\nports:\n- number: 80\n  name: http\n  protocol: HTTP\nendpoints:\n- address: 10.2.1.2\n  labels:\n    app: s1\n"},
+}
+
+const staleTargetsS0 = "hosts: [\"s0.ns1.example\"]\naddresses: [\"240.1.0.1\"]\nlocation: MESH_INTERNAL\nresolution: STATIC\nports:\n- number: 80\n  name: http\n  protocol: HTTP\nendpoints:\n"
+
+var staleTargetsScript = [][]scriptOp{
+	// the sidecar's own address leaves the endpoint list (10.1.0.2 stays)
+	{{"update", okey{kind.ServiceEntry, nsA, "s0"}, staleTargetsS0 + "- address: 10.1.0.2\n  labels:\n    app: s0\n"}},
+	// an unrelated full push does not repair it
+	{{"create", okey{kind.AuthorizationPolicy, nsA, "a0"}, "rules:\n- from:\n  - source:\n      namespaces: [\"ns2\"]\n"}},
+	// a ServiceEntry-kind key of the proxy's namespace does (service-level change: second port)
+	{{"update", okey{kind.ServiceEntry, nsA, "s0"}, "hosts: [\"s0.ns1.example\"]\naddresses: [\"240.1.0.1\"]\nlocation: MESH_INTERNAL\nresolution: STATIC\nports:\n- number: 80\n  name: http\n  protocol: HTTP\n- number: 8080\n  name: http-alt\n  protocol: HTTP\nendpoints:\n- address: 10.1.0.2\n  labels:\n    app: s0\n"}},
+	// and the other direction: the sidecar's address joins the endpoint list
+	{{"update", okey{kind.ServiceEntry, nsA, "s0"}, "hosts: [\"s0.ns1.example\"]\naddresses: [\"240.1.0.1\"]\nlocation: MESH_INTERNAL\nresolution: STATIC\nports:\n- number: 80\n  name: http\n  protocol: HTTP\n- number: 8080\n  name: http-alt\n  protocol: HTTP\nendpoints:\n- address: 10.1.0.2\n  labels:\n    app: s0\n- address: 10.1.0.1\n  labels:\n    app: s0\n"}},
+}
+
+func staleTargetsWorld() (*world, error) {
+	w := newWorld()
+	for _, o := range staleTargetsWorldOps {
+		c, err := w.mkCfg(o.Key, o.Spec)
+		if err != nil {
+			return nil, err
+		}
+		w.objs[o.Key] = c
+	}
+	return w, nil
+}
+
+// ---------------------------------------------------------------- scripted scenario: known finding C01-eds-cache-key-ignores-scoped-service-ports
+//
+// ns1 proxies see s0.ns1.example with ports 80 and 9000.  A root-namespace default Sidecar (egress ns2/* only) is created:
+// the ns2 sidecar now sees s0.ns1.example only through the destination of VirtualService ns2/v1, as a copy of the service
+// that has port 80 only - but it still watches the port-9000 clusters when the push generates EDS, gets an EMPTY
+// ClusterLoadAssignment for them (no such port in its view) and that is cached under a key that does not depend on the
+// view.  The next EDS generation for the ns1 sidecar (whose view has port 9000 and two endpoints) is served the empty one.
+var cacheViewWorldOps = []scriptOp{
+	{"create", okey{kind.ServiceEntry, nsA, "s0"}, "hosts: [\"s0.ns1.example\"]\naddresses: [\"240.1.0.1\"]\nlocation: MESH_INTERNAL\nresolution: STATIC\nports:\n- number: 80\n  name: http\n  protocol: HTTP\n- number: 9000\n  name: tcp\n  protocol: TCP\nendpoints:\n- address: 10.1.0.1\n  labels:\n    app: s0\n- address: 10.1.0.2\n  labels:\n    app: s0\n"},
+	{"create", okey{kind.ServiceEntry, nsB, "s1"}, "hosts: [\"s1.ns2.example\"]\naddresses: [\"240.2.1.1\"]\nlocation: MESH_INTERNAL\nresolution: STATIC\nports:\n- number: 80\n  name: http\n  protocol: HTTP\nendpoints:\n- address: 10.2.1.1\n  labels:\n    app: s1\n"},
+	{"create", okey{kind.Sidecar, nsA, "default"}, "egress:\n- hosts:\n  - \"*/*\"\n"},
+	{"create", okey{kind.VirtualService, nsB, "v1"}, "hosts: [\"s1.ns2.example\"]\nhttp:\n- route:\n  - destination:\n      host: s0.ns1.example\n      port:\n        number: 80\n"},
+}
+
+var cacheViewScript = [][]scriptOp{
+	// the DestinationRule (private to ns2) makes this push generate EDS for the ns2 sidecar only
+	{{"create", okey{kind.Sidecar, nsRoot, "default"}, "egress:\n- hosts:\n  - \"ns2/*\"\n"},
+		{"create", okey{kind.DestinationRule, nsB, "d0"}, "host: s1.ns2.example\ntrafficPolicy:\n  loadBalancer:\n    simple: RANDOM\nexportTo: [\".\"]\n"}},
+	// a push that regenerates EDS for everybody (EnvoyFilter is neither skipped for EDS nor delta-aware)
+	{{"create", okey{kind.EnvoyFilter, nsRoot, "e0"}, "workloadSelector:\n  labels:\n    app: nobody\nconfigPatches:\n- applyTo: CLUSTER\n  match:\n    context: SIDECAR_OUTBOUND\n  patch:\n    operation: MERGE\n    value:\n      connect_timeout: 3s\n"}},
+}
+
+func cacheViewWorld() (*world, error) {
+	w := newWorld()
+	for _, o := range cacheViewWorldOps {
+		c, err := w.mkCfg(o.Key, o.Spec)
+		if err != nil {
+			return nil, err
+		}
+		w.objs[o.Key] = c
+	}
+	return w, nil
+}
